@@ -373,7 +373,7 @@ def limit_st(draw, layers, qc_pairs, force_last_only=False):
     for c in classes:
       ml = [l for l in layers if l["k"] == c]
       if c in R.WEIGHT_CLASSES:
-        if draw(st.integers(0, 5)) == 0:
+        if draw(st.integers(0, 7)) == 0:
           continue                       # class outside the limits
         e = full_entry(ml, c in R.RNN_CLASSES)
         if c not in R.RNN_CLASSES and draw(st.integers(0, 3)) == 0:
@@ -386,7 +386,7 @@ def limit_st(draw, layers, qc_pairs, force_last_only=False):
       elif c == "BatchNormalization":
         if draw(st.booleans()):
           pairs.append([c, []])
-    npat = draw(st.sampled_from([0, 1, 1, 2]))
+    npat = draw(st.sampled_from([0, 1, 1, 2, 2]))
     import re  # pylint: disable=g-import-not-at-top
     cands = _name_patterns(layers)
     rel = lambda p: [l for l in layers if re.match(p, l["name"]) and  # pylint: disable=g-long-lambda
@@ -436,7 +436,7 @@ def spec_st(draw):
   if li == 0:
     spec["layer_indexes"] = list(range(1, n - 1))      # notebook style
   elif li == 1:
-    k = draw(st.integers(1, n - 1))
+    k = draw(st.integers(max(1, n // 2), n - 1))
     spec["layer_indexes"] = sorted(draw(st.lists(
         st.integers(0, n - 1), min_size=k, max_size=k, unique=True)))
   else:
@@ -488,7 +488,7 @@ def dfs_specs(tier):
       "limit": [["Dense", [4, 4, 4]], ["Activation", [8]],
                 ["^dense_[01]$", [2, 8, 4]], ["^act_[01]$", [4]]],
       "layer_indexes": None, "tune_filters": "none", "tune_exc": "^$",
-      "activation_bits": 4, "qconfig": _SMALL_QC})
+      "activation_bits": 4, "qconfig": _SMALL_QC, "arities": [2, 3, 2, 2, 2]})
   # B: layers outside the limits and outside layer_indexes (32 leaves)
   specs.append({
       "input": [6, 6, 1],
@@ -504,7 +504,7 @@ def dfs_specs(tier):
       "limit": [["Conv2D", [2, 4, 4]], ["Dense", [2]], ["Activation", [4]]],
       "layer_indexes": [1, 2, 3, 4, 5, 6],
       "tune_filters": "none", "tune_exc": "^$",
-      "activation_bits": 6, "qconfig": _SMALL_QC})
+      "activation_bits": 6, "qconfig": _SMALL_QC, "arities": [2, 2, 2, 2, 2]})
   # C: per-layer filter tuning of the only quantized (last) layer (20 leaves)
   specs.append({
       "input": [5],
@@ -514,7 +514,7 @@ def dfs_specs(tier):
           {"k": "Activation", "name": "softmax", "act": "softmax"}],
       "limit": [["^fc_1$", [["binary", "quantized_bits(4,0,1)"], 8, 4]]],
       "layer_indexes": None, "tune_filters": "layer", "tune_exc": "^$",
-      "activation_bits": 4, "qconfig": _SMALL_QC})
+      "activation_bits": 4, "qconfig": _SMALL_QC, "arities": [2, 5, 2]})
   # D: block filter tuning with an exception pattern (2*2*... leaves)
   specs.append({
       "input": [5],
@@ -524,7 +524,7 @@ def dfs_specs(tier):
           {"k": "Dense", "name": "dense", "units": 3, "act": "softmax", "use_bias": True}],
       "limit": [["Dense", [1, 4, 4]], ["Activation", [4]], ["default", 4]],
       "layer_indexes": None, "tune_filters": "block", "tune_exc": "^fc",
-      "activation_bits": 4, "qconfig": _SMALL_QC})
+      "activation_bits": 4, "qconfig": _SMALL_QC, "arities": [5, 2]})
   # D2: block filter tuning that changes a layer feeding another quantized layer
   specs.append({
       "input": [4],
@@ -533,7 +533,7 @@ def dfs_specs(tier):
           {"k": "Dense", "name": "dense", "units": 2, "act": None, "use_bias": True}],
       "limit": [["Dense", [1, 4, 4]]],
       "layer_indexes": None, "tune_filters": "block", "tune_exc": "^$",
-      "activation_bits": 4, "qconfig": _SMALL_QC})
+      "activation_bits": 4, "qconfig": _SMALL_QC, "arities": [5, 2]})
   if tier != "quick":
     # E: default configuration, conv stack with a group and list limits
     specs.append({
@@ -547,11 +547,12 @@ def dfs_specs(tier):
             {"k": "Activation", "name": "act_2", "act": "linear"},
             {"k": "Flatten", "name": "flatten"},
             {"k": "Dense", "name": "dense", "units": 3, "act": "softmax", "use_bias": True}],
-        "limit": [["Dense", [8, 8, 4]], ["Conv2D", [4, 8, 4]], ["Activation", [4]],
+        "limit": [["Dense", [1, 8, 4]], ["Conv2D", [4, 8, 4]], ["Activation", [4]],
                   ["^conv2d_0$", [["binary", "ternary", "quantized_bits(2,1,1,alpha=1.0)"], 8, 4]],
-                  ["^conv2d_[12]$", [2, 4, 4]], ["^act_[01]$", [3]]],
+                  ["^conv2d_[12]$", [1, 4, 4]], ["^act_[01]$", [3]]],
         "layer_indexes": list(range(1, 8)), "tune_filters": "none",
-        "tune_exc": "^$", "activation_bits": 4, "qconfig": "default"})
+        "tune_exc": "^$", "activation_bits": 4, "qconfig": "default",
+        "arities": [3, 2, 2, 3, 4, 2, 3]})
     # F: recurrent layer, 4-entry limit
     qc = copy.deepcopy(_SMALL_QC)
     qc["recurrent_activation"] = [["binary", 1], ["quantized_sigmoid(5)", 5]]
@@ -562,21 +563,8 @@ def dfs_specs(tier):
             {"k": "Dense", "name": "dense", "units": 2, "act": None, "use_bias": True}],
         "limit": [["LSTM", [2, 4, 2, 4]], ["Dense", [1, 4, 4]]],
         "layer_indexes": None, "tune_filters": "none", "tune_exc": "^$",
-        "activation_bits": 4, "qconfig": qc})
+        "activation_bits": 4, "qconfig": qc, "arities": [2, 2, 2]})
   return specs
-
-
-def edge_specs():
-  """Single trials with the library's own defaults."""
-  return [
-      # default quantization_config with a recurrent layer
-      {"input": [3, 2],
-       "layers": [{"k": "LSTM", "name": "lstm_0", "units": 2},
-                  {"k": "Dense", "name": "dense", "units": 2, "act": None, "use_bias": True}],
-       "limit": [["LSTM", [4, 8, 4, 4]], ["Dense", [4, 8, 4]]],
-       "layer_indexes": None, "tune_filters": "none", "tune_exc": "^$",
-       "activation_bits": 4, "qconfig": "default"},
-  ]
 
 
 # ---------------------------------------------------------------------------
